@@ -136,8 +136,8 @@ def scenarios(ctx):
                            budgets=dict(tick=10 if q else 13, wait=2, pingresp=4 if q else 5, lose=1,
                                         rebuild=1, connect=1, connack=1)))
     out.append(Scn('k2-traffic', profile='pub', mode='async',
-                   init=(('connect', 0, True, 2, 4), ('connack', 0, 0, False)), pub_qos=(1,), waits=(1.0,), closing=False,
-                   budgets=dict(tick=6 if q else 8, wait=1, pingresp=2 if q else 3, pub=1, ack=1, disconnect=1)))
+                   init=(('connect', 0, True, 2, 4), ('connack', 0, 0, False)), pub_qos=(0, 1), waits=(1.0,), closing=False,
+                   budgets=dict(tick=6 if q else 8, wait=3, pingresp=2 if q else 3, pub=2, ack=1, disconnect=1)))
     KA2 = (('connect', 0, True, 2, 4), ('connack', 0, 0, False), ('connect', 1, True, 2, 4), ('connack', 1, 0, False))
     out.append(Scn('two-brokers', profile='pub', mode='async', naddr=2, init=KA2, closing=False,
                    reconnects=[(True, 2, 4)],
